@@ -44,6 +44,17 @@ if [ "$1" = "C20" ]; then
     fi
 fi
 cd "$here/.." || exit 2
+if [ "$1" = "C17" ] && [ "$2" = "--replay" ] && grep -q '"kind": "miri"' "$3" 2>/dev/null; then
+    # a recorded (program seed, Miri seed): interleaving inside library calls, re-executed under Miri
+    exec python3 "$here/miri_stage.py" replay "$3"
+fi
+if [ "$1" = "C17" ] && [ "$2" = "thorough" ]; then
+    # first the baton scheduler (seams), then Miri's scheduler (pre-emption inside library calls)
+    "$here/target/release/check" "$@"
+    code=$?
+    [ "$code" -ne 0 ] && exit "$code"
+    exec python3 "$here/miri_stage.py" run "${VERIF_SEED:-1}"
+fi
 if [ "$2" = "--replay" ]; then
     # a replayed case may kill or hang the process (that is what it recorded): map that to a verdict
     timeout 300 "$here/target/release/check" "$@"
